@@ -1362,6 +1362,7 @@ def main():
     if ck.args.replay:
         return replay(ck)
     mesonproc.preimport()
+    scratch_root()      # created (and later removed) by the parent; pool workers inherit it
     stats = {}
     cases = []
     if ck.want('A'):
@@ -1459,6 +1460,7 @@ def replay(ck):
     case = d['case']
     case['observe'] = d.get('observe', False)
     mesonproc.preimport()
+    scratch_root()
     print('case', case['id'])
     print('commands (%s form): %s' % (case['form'], json.dumps(case['cmds'])))
     r = run_case(case)
